@@ -164,9 +164,15 @@ def two_calls():
         fs = FS(bound=3)
         _install_fs(p, fs)
         p.attr(oo, "datetime", _Clock(), "opaque clock token")
-        a = oo.create_output_directory(PREFIX + "/out")
-        b = oo.create_output_directory(PREFIX + "/out")
-        c = oo.create_output_directory(PREFIX + "/out")
+        try:
+            a = oo.create_output_directory(PREFIX + "/out")
+            b = oo.create_output_directory(PREFIX + "/out")
+            c = oo.create_output_directory(PREFIX + "/out")
+        except RecursionError:
+            a = None
+    vx.prove("C19/dir/terminates/three_calls", a is not None)
+    if a is None:
+        return
     vx.prove("C19/dir/distinct_calls", len({str(a), str(b), str(c)}) == 3 and fs.created == [str(a), str(b), str(c)])
 
 
@@ -375,6 +381,38 @@ def replay(oid, kwargs, model, data):
             for f in os.listdir(tmp):
                 os.remove(os.path.join(tmp, f))
             os.rmdir(tmp)
+    if data["fn"] in ("directory", "two_calls") and ("/terminates" in oid or "distinct_calls" in oid or "bounded_attempts" in oid):
+        # many starts within one second (frozen clock): earlier runs' directories exist already
+        import datetime as _dt
+        import shutil
+        import signal
+
+        import pyxel.outputs.outputs as oo
+
+        tmp = tempfile.mkdtemp(prefix="vx_c19_")
+        custom = "my_" if kwargs.get("custom") else None
+        stamp = _dt.datetime(2024, 1, 2, 3, 4, 5)
+        real_dt = oo.datetime
+        oo.datetime = type("FrozenClock", (), {"now": staticmethod(lambda: stamp)})
+
+        def _alarm(*a):
+            raise TimeoutError
+
+        signal.signal(signal.SIGALRM, _alarm)
+        got = []
+        try:
+            signal.alarm(20)
+            for _ in range(int(kwargs.get("k", 2)) + 3):
+                got.append(oo.create_output_directory(tmp, custom_dir_name=custom).name)
+            signal.alarm(0)
+            hung = False
+        except TimeoutError:
+            hung = True
+        finally:
+            signal.alarm(0)
+            oo.datetime = real_dt
+            shutil.rmtree(tmp, ignore_errors=True)
+        return hung or len(set(got)) != len(got), {"starts_within_one_second": int(kwargs.get("k", 2)) + 3, "directories": got, "did_not_return_within_20s": hung}
     if data["fn"] in ("directory", "two_calls"):
         # a concurrent start: another process creates the candidate directory between this call's checks and its mkdir
         import pyxel.outputs.outputs as oo
